@@ -4,3 +4,11 @@
 // Comment-only file: it adds no code to the package, with or without the tag.
 
 package encoding
+
+//@ global
+//@   invariant[sent-nonnil] errNoProfile != nil && errEndOfStream != nil
+//@   invariant[sent-self] errOnly(errNoProfile, errNoProfile) && errOnly(errEndOfStream, errEndOfStream)
+
+//@ func encoding.init
+//@   property C05 C15
+//@   modifies errNoProfile, errEndOfStream
